@@ -241,8 +241,9 @@ func (not NotConditions) Build(builder Builder) {
 				negationBuilder.NegationBuild(builder)
 			} else {
 				builder.WriteString("NOT ")
-				e, wrapInParentheses := c.(Expr)
-				if ne, ok := c.(NamedExpr); ok {
+				// look through single-member And / Or groups, which build no parentheses of their own
+				e, wrapInParentheses := unwrapSingle(c).(Expr)
+				if ne, ok := unwrapSingle(c).(NamedExpr); ok {
 					e, wrapInParentheses = Expr{SQL: ne.SQL}, true
 				}
 				if wrapInParentheses {
@@ -279,8 +280,8 @@ func (not NotConditions) Build(builder Builder) {
 				}
 			}
 
-			e, wrapInParentheses := c.(Expr)
-			if ne, ok := c.(NamedExpr); ok {
+			e, wrapInParentheses := unwrapSingle(c).(Expr)
+			if ne, ok := unwrapSingle(c).(NamedExpr); ok {
 				e, wrapInParentheses = Expr{SQL: ne.SQL}, true
 			}
 			if wrapInParentheses {
